@@ -28,8 +28,10 @@ theorem C16_gen_defaults :
 /-- comparison operators: time-out is `last + timeout ≤ t` (model: `Node.expired`, `Node.localExpired`),
 the limit is `len ≥ max` (model: login needs `len < max`) -/
 theorem C16_gen_comparisons :
-    Gen.Session.localTimeoutCmp = "le" ∧ Gen.Session.remoteTimeoutCmp = "le" ∧ Gen.Session.limitCmp = "ge" ∧
-    Gen.Session.preTimestepSetsCurrent = true ∧ Gen.Session.validateIsMembership = true := by decide
+    -- the time-out comparisons, `validate_remote_session_uuid` and the limit comparison are no longer textual pins: the methods are
+    -- translated and proved equal to the model in Props/C16Tr.lean (`C16_gen_pre_timestep`, `C16_gen_session_validation`,
+    -- `C16_gen_login_guards`); what stays here is the assignment `self.current_timestep = timestep`
+    Gen.Session.preTimestepSetsCurrent = true := by decide
 
 /-- guard shapes the model's `authenticate`, `loginOk`, `changePassword`, `disableUser`, `logoutUser` rely on -/
 theorem C16_gen_guards :
@@ -55,7 +57,6 @@ theorem C16_gen_guards :
 `send_remote_command` answers from the response to *this* command only; closed ports drop frames -/
 theorem C16_gen_terminal :
     Gen.Session.executeOnlyUnderValidConnection = true ∧
-    Gen.Session.checkClientConnectionShape = true ∧
     Gen.Session.remoteCommandClearsLastResponse = true ∧
     Gen.Session.remoteCommandAnswersFailureWithoutResponse = true ∧
     Gen.Session.hostDropsFramesForClosedPorts = true := by decide
